@@ -67,6 +67,9 @@ func (p *bitmapPool) AllocSpecific(sub string, v netip.Prefix) error {
 	return p.a.AllocateSpecific(sub, ToIPNet(v))
 }
 func (p *bitmapPool) ReleaseValue(v netip.Prefix) error { return p.a.ReleasePrefix(ToIPNet(v)) }
+func (p *bitmapPool) Move(sub string, v netip.Prefix) error {
+	return p.a.SetAllocation(sub, ToIPNet(v))
+}
 func (p *bitmapPool) Reapply(sub string) error {
 	n := p.a.Lookup(sub)
 	if n == nil {
@@ -205,7 +208,8 @@ func (m *MemStore) Clone() *MemStore {
 	n.QueryPerm = m.QueryPerm
 	return n
 }
-func (m *MemStore) FailNext(n int) { m.mu.Lock(); m.failAt = n; m.mu.Unlock() }
+func (m *MemStore) FailNext(n int)     { m.mu.Lock(); m.failAt = n; m.mu.Unlock() }
+func (m *MemStore) FaultPending() bool { m.mu.Lock(); defer m.mu.Unlock(); return m.failAt > 0 }
 func (m *MemStore) tick() bool {
 	m.Writes++
 	if m.failAt > 0 {
@@ -315,7 +319,8 @@ func (p *distPool) Stats() (int, int, bool) {
 	s := p.a.Stats()
 	return s.Allocated, s.Total, true
 }
-func (p *distPool) FailNext(n int) { p.store.FailNext(n) }
+func (p *distPool) FailNext(n int)     { p.store.FailNext(n) }
+func (p *distPool) FaultPending() bool { return p.store.FaultPending() }
 func (p *distPool) StoreHas(sub string) (netip.Prefix, bool) {
 	b, err := p.store.Get(bg, fmt.Sprintf("/allocation/%s/%s", p.cfg.PoolID, sub))
 	if err != nil {
@@ -330,6 +335,19 @@ func (p *distPool) StoreHas(sub string) (netip.Prefix, bool) {
 		return netip.Prefix{}, false
 	}
 	return pf, true
+}
+
+// Move delivers a remote announcement "sub now has v" through the store's watch callback.
+func (p *distPool) Move(sub string, v netip.Prefix) error {
+	rec := allocator.DistributedAllocation{PoolID: p.cfg.PoolID, SubscriberID: sub, Prefix: v.String()}
+	b, _ := json.Marshal(rec)
+	key := fmt.Sprintf("/allocation/%s/%s", p.cfg.PoolID, sub)
+	// the announcing node wrote the record to the shared store before peers hear of it
+	p.store.mu.Lock()
+	p.store.Data[key] = b
+	p.store.mu.Unlock()
+	p.store.Announce(key, b, false)
+	return nil
 }
 
 // Store exposes the backing store (C12).
@@ -493,6 +511,11 @@ func (p *poolAllocPool) Stats() (int, int, bool) {
 	return int(a), int(t), true
 }
 func (p *poolAllocPool) FailNext(n int) { p.st.mu.Lock(); p.st.failAt = n; p.st.mu.Unlock() }
+func (p *poolAllocPool) FaultPending() bool {
+	p.st.mu.Lock()
+	defer p.st.mu.Unlock()
+	return p.st.failAt > 0
+}
 func (p *poolAllocPool) StoreHas(sub string) (netip.Prefix, bool) {
 	recs, err := p.st.GetBySubscriber(bg, sub)
 	if err != nil || len(recs) == 0 {
